@@ -144,6 +144,7 @@ def _gen_prop(pid):
                     gen.shutil.rmtree(work, ignore_errors=True)
                 res.cov["distribution"]["runtime helpers raced (-race): goroutines x iterations"] = hr["goroutines"] * hr["iterations"]
                 res.cov["distribution"]["distinct CEL expressions compiled by IsValidCEL in one process"] = hr["distinct_cel_expressions"]
+                res.cov["distribution"]["fresh processes (cold start of every helper under contention)"] = hr.get("processes", 1)
                 res.cov["evaluations"] += hr["goroutines"] * hr["iterations"]
                 if not hr["ok"]:
                     res.violation("helpers-race", {"kind": "helpers-race", "what": "the exported runtime helpers (IsValidCEL with %d distinct expressions, IsValidEmail/URL/UUID/Alpha, IsNumeric) called from %d goroutines: %s" % (
@@ -161,6 +162,15 @@ def _c08(res):
         return
     rows, _ = gen.run_harness("c08", res.tier, res.seed, "is,iface,vet,together")
     ev = gen.evaluate(rows, model_ok, ["gen_fail", "build", "gofmt"])
+    # "It defines ValidateT, ValidateTContext and the methods": a struct whose rules demand a validator and for which the
+    # generator wrote NO file into the package (evaluate() records those under "spec")
+    nofile = [x for x in ev["spec"] if isinstance(x[2], str) and x[2].startswith("no validator file generated")]
+    if nofile:
+        r, v, what, a = nofile[0]
+        payload = {"kind": "gen-nofile", "count": len(nofile), "what": "generation succeeded but the package contains no validator file for this struct (no ValidateT / ValidateTContext / methods); a violating value: " + v[:300], "spec": a[:500]}
+        payload.update(gen.short(r))
+        res.violation("nofile", payload, True)
+        return
     # model's well-formedness verdict vs the Go type checker's
     wf = gen.C.drive("modeldrv", ["wf\t" + r["decl_sexp"] for r in rows]) if model_ok and rows else [None] * len(rows)
     wf_ties, vet_notes = [], 0
